@@ -15,13 +15,13 @@ Definition cinv (n : nat) (s : cst) : Prop :=
   under s = n1 s + n2 s + n3 s + nd s /\
   n0 s + n1 s + n2 s + n3 s + nd s = n.
 
-Lemma cinv_init n : cinv n (cinit n).
+Lemma cinv_init n pre : cinv n (cinit n pre).
 Proof. unfold cinv, cinit; simpl. repeat split; try lia; intros; try discriminate; lia. Qed.
 
-Lemma cinv_step n s l s' : cinv n s -> cstep true s l = Some s' -> cinv n s'.
+Lemma cinv_step n s l s' : cinv n s -> cstep true false s l = Some s' -> cinv n s'.
 Proof.
   unfold cinv. intros (I1 & I2 & I3 & I4 & I5 & I6 & I7) H.
-  destruct s as [a0 a1 a2 a3 ad dn fi un]; simpl in *.
+  destruct s as [a0 a1 a2 a3 ad dn fi un uc]; simpl in *.
   destruct l; simpl in H.
   - (* CUnder *) destruct a0; [discriminate|]. inversion H; subst; clear H; simpl. repeat split; try lia; auto.
   - (* CEnterRun *)
@@ -42,31 +42,32 @@ Proof.
     assert (dn = false) as -> by (destruct dn; [specialize (I3 eq_refl); lia | reflexivity]).
     simpl in *. repeat split; try lia; auto.
   - (* CDirect *) discriminate.
+  - (* CUnderEarly *) discriminate.
 Qed.
 
-Lemma cinv_run n ls : forall s s', cinv n s -> crun true s ls = Some s' -> cinv n s'.
+Lemma cinv_run n ls : forall s s', cinv n s -> crun true false s ls = Some s' -> cinv n s'.
 Proof.
   induction ls as [|l r IH]; intros s s' I H; simpl in H.
   - inversion H; subst; exact I.
-  - destruct (cstep true s l) as [s1|] eqn:E; [|discriminate].
+  - destruct (cstep true false s l) as [s1|] eqn:E; [|discriminate].
     exact (IH s1 s' (cinv_step n s l s1 I E) H).
 Qed.
 
 (* SAFETY, every reachable state of every schedule: onClose has run at most once *)
-Lemma fired_at_most_once n ls s : crun true (cinit n) ls = Some s -> fired s <= 1.
+Lemma fired_at_most_once n pre ls s : crun true false (cinit n pre) ls = Some s -> fired s <= 1.
 Proof.
-  intro H. destruct (cinv_run n ls _ _ (cinv_init n) H) as (I1 & I2 & I3 & _).
+  intro H. destruct (cinv_run n ls _ _ (cinv_init n pre) H) as (I1 & I2 & I3 & _).
   rewrite I1. destruct (done s); simpl; [rewrite (I3 eq_refl) in *|]; lia.
 Qed.
 
 (* when every caller has returned: onClose ran exactly once (if anybody called
    Close at all) and the underlying Close ran once per call *)
-Lemma close_once n ls s :
-  crun true (cinit n) ls = Some s -> cfinal s ->
+Lemma close_once n pre ls s :
+  crun true false (cinit n pre) ls = Some s -> cfinal s ->
   fired s = (if n =? 0 then 0 else 1) /\ under s = n /\ nd s = n.
 Proof.
   intros H (F0 & F1 & F2 & F3).
-  destruct (cinv_run n ls _ _ (cinv_init n) H) as (I1 & I2 & I3 & I4 & I5 & I6 & I7).
+  destruct (cinv_run n ls _ _ (cinv_init n pre) H) as (I1 & I2 & I3 & I4 & I5 & I6 & I7).
   rewrite F0, F1, F2, F3 in *. simpl in *.
   assert (nd s = n) by lia. repeat split; try lia.
   destruct (n =? 0) eqn:E.
@@ -76,11 +77,11 @@ Qed.
 
 (* PROGRESS: while some caller has not returned, some step is enabled — no
    schedule can get stuck, so every maximal schedule ends in a final state *)
-Lemma progress n ls s :
-  crun true (cinit n) ls = Some s -> ~ cfinal s -> exists l s', cstep true s l = Some s'.
+Lemma progress n pre ls s :
+  crun true false (cinit n pre) ls = Some s -> ~ cfinal s -> exists l s', cstep true false s l = Some s'.
 Proof.
-  intros H NF. destruct (cinv_run n ls _ _ (cinv_init n) H) as (I1 & I2 & I3 & I4 & I5 & I6 & I7).
-  destruct s as [a0 a1 a2 a3 ad dn fi un]; unfold cfinal in NF; simpl in *.
+  intros H NF. destruct (cinv_run n ls _ _ (cinv_init n pre) H) as (I1 & I2 & I3 & I4 & I5 & I6 & I7).
+  destruct s as [a0 a1 a2 a3 ad dn fi un uc]; unfold cfinal in NF; simpl in *.
   destruct a0 as [|a0]; [|exists CUnder; eexists; reflexivity].
   destruct a2 as [|a2]; [|exists CFire; eexists; reflexivity].
   destruct a3 as [|a3]; [|exists CExit; eexists; reflexivity].
@@ -91,18 +92,26 @@ Proof.
 Qed.
 
 (* the canonical schedule is a complete run *)
-Lemma csched_seq_example : forall n, n <= 20 ->
-  match crun true (cinit n) (csched_seq n) with Some s => cfinalb s = true | None => False end.
+Lemma csched_seq_example : forall n pre, n <= 20 ->
+  match crun true false (cinit n pre) (csched_seq n) with Some s => cfinalb s = true | None => False end.
 Proof.
-  intros n H. do 21 (destruct n as [|n]; [vm_compute; reflexivity|]). lia.
+  intros n pre H. do 21 (destruct n as [|n]; [destruct pre; vm_compute; reflexivity|]). lia.
 Qed.
 
 (* the shape WITHOUT sync.Once runs the callback once per call: two callers, two callbacks *)
 Lemma direct_fires_twice :
-  exists ls s, crun false (cinit 2) ls = Some s /\ cfinal s /\ fired s = 2.
+  exists ls s, crun false false (cinit 2 false) ls = Some s /\ cfinal s /\ fired s = 2.
 Proof.
   exists [CUnder; CUnder; CDirect; CDirect]. eexists. split; [vm_compute; reflexivity|].
   split; [repeat split; reflexivity | reflexivity].
+Qed.
+
+(* the shape that returns before the Once when the underlying Close reports "already closed":
+   if a layer BELOW the wrapper closed the connection first, the callback never runs *)
+Lemma early_return_never_fires :
+  exists ls s, crun true true (cinit 1 true) ls = Some s /\ cfinal s /\ fired s = 0.
+Proof.
+  exists [CUnderEarly]. eexists. split; [vm_compute; reflexivity|]. split; [repeat split; reflexivity | reflexivity].
 Qed.
 
 (* ---- the active gauge: +1 per accepted/dialled connection, -1 per onClose ---- *)
@@ -116,8 +125,8 @@ Proof.
 Qed.
 
 (* each connection closed by c >= 1 concurrent callers, arbitrary schedule each *)
-Definition conn_run (c : nat) (ls : list clabel) : option nat :=
-  match crun true (cinit c) ls with
+Definition conn_run (c : nat) (pre : bool) (ls : list clabel) : option nat :=
+  match crun true false (cinit c pre) ls with
   | Some s => if cfinalb s then Some (fired s) else None
   | None => None
   end.
@@ -128,10 +137,10 @@ Proof.
   repeat match goal with X : (_ =? _) = true |- _ => apply Nat.eqb_eq in X end. auto.
 Qed.
 
-Lemma conn_run_one c ls k : c >= 1 -> conn_run c ls = Some k -> k = 1.
+Lemma conn_run_one c pre ls k : c >= 1 -> conn_run c pre ls = Some k -> k = 1.
 Proof.
-  unfold conn_run. intros C H. destruct (crun true (cinit c) ls) as [s|] eqn:E; [|discriminate].
+  unfold conn_run. intros C H. destruct (crun true false (cinit c pre) ls) as [s|] eqn:E; [|discriminate].
   destruct (cfinalb s) eqn:F; [|discriminate]. inversion H; subst.
-  destruct (close_once c ls s E (cfinalb_final s F)) as (-> & _).
+  destruct (close_once c pre ls s E (cfinalb_final s F)) as (-> & _).
   destruct (c =? 0) eqn:Z; [apply Nat.eqb_eq in Z; lia | reflexivity].
 Qed.
